@@ -121,12 +121,25 @@ def run_test_with(test_runner, **kwargs):
             except TypeError:
                 # Backwards compat: if we can't call the constructor
                 # with last_resort, try without that.
-                return test_runner(case, handlers=handlers, **kwargs)
+                runner = test_runner(case, handlers=handlers, **kwargs)
+                _install_last_resort(runner, last_resort)
+                return runner
 
         function._run_test_with = _run_test_with
         return function
 
     return decorator
+
+
+def _install_last_resort(run_test, last_resort):
+    """Give a runner built by an old-style factory its handler of last resort.
+
+    A factory that does not accept ``last_resort`` builds a `RunTest` with the
+    do-nothing default, so an exception no handler claims (KeyboardInterrupt,
+    SystemExit) would be propagated without any outcome being reported.
+    """
+    if last_resort is not None and hasattr(run_test, "last_resort"):
+        run_test.last_resort = last_resort
 
 
 def _copy_content(content_object):
@@ -656,6 +669,7 @@ class TestCase(unittest.TestCase):
             # Backwards compat: if we can't call the constructor
             # with last_resort, try without that.
             run_test = self.__RunTest(self, self.exception_handlers)
+            _install_last_resort(run_test, self._report_error)
         return run_test.run(result)
 
     def _run_setup(self, result):
